@@ -6,6 +6,8 @@ R13.2  grouping agreement: MocksEmitter groups operations by tag exactly like En
 R13.3  mock bodies raise: every path of _transform_to_mock that writes a `def` writes `raise NotImplementedError(`
 R13.4  naming agreement: client class / module / Protocol / mock class names are derived from the canonical tag by the
        same functions in all six places
+R13.6  a consumer that reads the nature from the one line closing a rendered signature obliges CodeWriter.write_function_signature to put the
+       whole return annotation on that line (producer/consumer contract; not armed when every consumer joins the signature lines)
 R13.5  coroutine vs async-generator nature is decided from the same evidence in Protocol and mock (the rendered
        signature's return annotation)
 """
@@ -166,6 +168,87 @@ def run(repo: Repo, rep: Report, tier: str) -> None:
             else:
                 rep.violation("R13.5", sub, f"{fn.fq}|nature|from-ir|{from_ir}",
                               f"the decision text derives from the IR ({from_ir}) instead of the rendered signature", fn.loc(t))
+
+    # ---------------------------------------------------------------- R13.6 one-line sniffing obliges the signature writer
+    # A consumer that looks for the return annotation in ONE rendered line (the line that closes the signature) relies on the
+    # signature writer putting the whole annotation on that line; a consumer that joins the collected lines does not.
+    from sa.match import truthiness as _truth
+
+    one_line = []
+    for fn in (ev, tm):
+        FL = Locals(fn.node)
+        for t in (n for n in own_nodes(fn.node) if isinstance(n, ast.Compare) and len(n.ops) == 1 and isinstance(n.ops[0], ast.In) and const_str(n.left) == "AsyncIterator"):
+            def _shape(e: ast.AST, depth: int = 0) -> str:
+                """'element' (one entry of a sequence of lines), 'joined' (several lines glued together) or 'other'."""
+                e = FL.inline(e, stop=tuple(FL.params))
+                if any(isinstance(x, ast.Call) and isinstance(x.func, ast.Attribute) and x.func.attr == "join" for x in ast.walk(e)):
+                    return "joined"
+                if any(isinstance(x, ast.Subscript) and not isinstance(x.slice, ast.Slice) for x in ast.walk(e)):
+                    return "element"
+                shapes = set()
+                for x in ast.walk(e):
+                    if isinstance(x, ast.Name) and x.id not in FL.params and depth < 4:
+                        for k, v, _ in FL.defs.get(x.id, []):
+                            shapes.add("element" if k.startswith("for") else _shape(v, depth + 1) if v is not None else "other")
+                if shapes == {"element"}:
+                    return "element"
+                return "joined" if "joined" in shapes else "other"
+
+            if _shape(t.comparators[0]) == "element":
+                one_line.append((fn, t))
+    rep.count("R13.6:one_line_consumers", [f"{fn.qualname}: {norm(t)[:60]}" for fn, t in one_line])
+    if one_line:
+        wf = repo.func("core.writers.code_writer:CodeWriter.write_function_signature")
+        WL = Locals(wf.node)
+        wcalls = [(c, WL.inline(c.args[0], stop=tuple(WL.params))) for c in calls_in(wf.node) if isinstance(c.func, ast.Attribute) and c.func.attr == "write_line" and c.args]
+        # the return-annotation parameter by role: the name formatted right after "->" in a written line
+        rt = None
+        for _, a in wcalls:
+            if isinstance(a, ast.JoinedStr):
+                for i, part in enumerate(a.values[:-1]):
+                    nxt = a.values[i + 1]
+                    if isinstance(part, ast.Constant) and str(part.value).rstrip().endswith("->") and isinstance(nxt, ast.FormattedValue) and isinstance(nxt.value, ast.Name):
+                        rt = nxt.value.id
+        rep.require(rt is not None and rt in WL.params, "R13.6: cannot identify the return-annotation parameter of CodeWriter.write_function_signature (anchor)")
+        par = {}
+        for n in ast.walk(wf.node):
+            for fld in ("body", "orelse"):
+                for ch in getattr(n, fld, []) if isinstance(n, ast.If) else []:
+                    par[id(ch)] = (n, fld)
+            for ch in ast.iter_child_nodes(n):
+                par.setdefault(id(ch), (n, None))
+
+        def under_rt(node: ast.AST) -> bool:
+            cur = node
+            while id(cur) in par:
+                p_, fld = par[id(cur)]
+                if isinstance(p_, ast.If) and fld in ("body", "orelse"):
+                    for cj in ([p_.test] if not (isinstance(p_.test, ast.BoolOp) and isinstance(p_.test.op, ast.And)) else p_.test.values):
+                        tr = _truth(cj)
+                        if tr and isinstance(tr[0], ast.Name) and tr[0].id == rt and tr[1] == (fld == "body"):
+                            return True
+                cur = p_
+            return False
+
+        n_close = 0
+        for c, a in wcalls:
+            last = a.values[-1] if isinstance(a, ast.JoinedStr) and a.values else a
+            if not (isinstance(last, ast.Constant) and isinstance(last.value, str) and last.value.rstrip().endswith(":")):
+                continue
+            if not under_rt(c):
+                continue
+            n_close += 1
+            sub = f"{wf.module.relpath}:{wf.qualname} closing line `{norm(a)[:50]}`"
+            has = any(isinstance(x, ast.FormattedValue) and isinstance(x.value, ast.Name) and x.value.id == rt for x in ast.walk(a))
+            if has:
+                rep.ok("R13.6", sub, f"the whole return annotation is on the line that closes the signature (what {len(one_line)} one-line consumer(s) inspect)", wf.loc(c))
+            else:
+                fn0, t0 = one_line[0]
+                rep.violation("R13.6", sub, f"{wf.fq}|closing-line-without-annotation",
+                              f"a signature with a return annotation can end in a line that does not contain it, but `{fn0.qualname}` decides coroutine vs async "
+                              f"generator from that one line (`{norm(t0)[:50]}`): for a wrapped `AsyncIterator[...]` annotation the Protocol keeps `async def` "
+                              "while client and mock are async generators", wf.loc(c))
+        rep.require(n_close >= 1, "R13.6: no signature-closing write under a truthy return annotation found in write_function_signature (anchor)")
 
 
 def _name_pattern(v: ast.AST):
